@@ -262,12 +262,35 @@ def mk_and(a, b):
 
 def mk_cmp(op, a, b):
     if a[0] == "c" and b[0] == "c":
+        x, y = a[1], b[1]
         try:
-            return C({"==": a[1] == b[1], "!=": a[1] != b[1], "is": a[1] is b[1] or a[1] == b[1], "is not": not (a[1] is b[1] or a[1] == b[1]), "<": a[1] < b[1], "<=": a[1] <= b[1], ">": a[1] > b[1], ">=": a[1] >= b[1], "in": a[1] in b[1], "not in": a[1] not in b[1]}[op])
+            if op == "==":
+                return C(x == y)
+            if op == "!=":
+                return C(x != y)
+            if op == "is":
+                return C(x is y or x == y)
+            if op == "is not":
+                return C(not (x is y or x == y))
+            if op == "in":
+                return C(x in y)
+            if op == "not in":
+                return C(x not in y)
+            if op == "<":
+                return C(x < y)
+            if op == "<=":
+                return C(x <= y)
+            if op == ">":
+                return C(x > y)
+            if op == ">=":
+                return C(x >= y)
         except Exception:
             pass
     if op in ("is", "is not", "==", "!=") and b == NONE and a[0] in ("s", "list", "dict", "fn", "comp", "join"):
         return C(op in ("is not", "!="))
+    if op in ("in", "not in") and a[0] == "c" and b[0] == "list" and all(i[0] == "c" for i in b[1]):
+        r = any(i == a for i in b[1])
+        return C(r if op == "in" else not r)
     if op in ("in", "not in") and a[0] == "c" and b[0] == "dict" and all(k[0] == "c" for k, _ in b[1]):
         r = any(k == a for k, _ in b[1])
         return C(r if op == "in" else not r)
@@ -428,6 +451,7 @@ class AV:
         self._modenv: dict[str, dict] = {}
         self.call_log: list = []  # (caller Func, call node, value) for every opaque call met (in order)
         self._budget = 200000
+        self.attr_stores: list = []  # (function, value of the object, attribute, value stored, node)
 
     @staticmethod
     def default_inline(callee: Func) -> bool:
@@ -489,14 +513,29 @@ class AV:
                     f2 = Frame(fr.func, fr.rel, dict(fr.env), fr.depth, fr.binder)
                     r1 = self._run(list(st.body) + rest, f1, cont)
                     r2 = self._run(list(st.orelse) + rest, f2, cont)
+                    soft = (_FALL, _CONT)
+                    if any(r is x for r in (r1,) for x in soft) and any(r is x for r in (r2,) for x in soft):
+                        # both branches reach the end of this iteration / block: merge what they did
+                        self._phi(cond, f1.env, f2.env, fr)
+                        return _CONT if (r1 is _CONT and r2 is _CONT) else _FALL
                     fr.env.clear()
-                    fr.env.update(f2.env if _always_exits(st.body) else f1.env)
-                    if r1 is _FALL and r2 is _FALL:
-                        return _FALL
-                    if r1 is _FALL or r2 is _FALL:
-                        return unk("a branch of the loop body exits, the other completes")
+                    fr.env.update(f2.env if (_always_exits(st.body) or any(r1 is x for x in (_BREAK, _MIXED))) else f1.env)
+                    marks = (_FALL, _CONT, _BREAK, _MIXED)
+                    if any(r1 is x for x in marks) and any(r2 is x for x in marks):
+                        return _BREAK if (r1 is _BREAK and r2 is _BREAK) else _MIXED
+                    if any(r1 is x for x in marks) or any(r2 is x for x in marks):
+                        return unk("a branch of the block exits the function, the other does not")
                     return mk_if(cond, r1, r2)
                 self._merge_if(st, cond, fr)
+                continue
+            if isinstance(st, ast.Break):
+                return _BREAK
+            if isinstance(st, ast.Continue):
+                return _CONT
+            if isinstance(st, ast.For):
+                r = self._for(st, fr)
+                if r is not None:
+                    return r
                 continue
             if isinstance(st, ast.With):
                 for it in st.items:
@@ -533,9 +572,6 @@ class AV:
             new = self._binop(type(st.op), cur, self._ev(st.value, fr))
             self._bind(st.target, new, fr)
             return
-        if isinstance(st, ast.For):
-            self._for(st, fr)
-            return
         if isinstance(st, ast.While):
             for n in _assigned(st):
                 fr.env[n] = unk("assigned in a while loop")
@@ -544,9 +580,6 @@ class AV:
             fr.env[st.name] = ("fn", _Closure(st, fr.env, fr.rel, fr.func))
             return
         if isinstance(st, (ast.Pass, ast.Import, ast.ImportFrom, ast.Assert, ast.Global, ast.Nonlocal, ast.Delete)):
-            return
-        if isinstance(st, (ast.Break, ast.Continue)):
-            fr.env["<jump>"] = unk("break/continue")
             return
         for n in _assigned(st):
             fr.env[n] = unk(f"statement {type(st).__name__}")
@@ -557,16 +590,22 @@ class AV:
         f2 = Frame(fr.func, fr.rel, e2, fr.depth, fr.binder)
         self._run(list(st.body), f1, ())
         self._run(list(st.orelse), f2, ())
+        self._phi(cond, e1, e2, fr)
+
+    def _phi(self, cond, e1: dict, e2: dict, fr: Frame):
+        out = {}
         for k in set(e1) | set(e2):
             a, b = e1.get(k), e2.get(k)
             if a == b:
-                fr.env[k] = a
+                out[k] = a
             elif k.startswith("<"):
-                fr.env[k] = a if a is not None else b
+                out[k] = a if a is not None else b
             elif a is None or b is None:
-                fr.env[k] = mk_if(cond, a if a is not None else unk(f"{k} unbound"), b if b is not None else unk(f"{k} unbound"))
+                out[k] = mk_if(cond, a if a is not None else unk(f"{k} unbound"), b if b is not None else unk(f"{k} unbound"))
             else:
-                fr.env[k] = _merge(cond, a, b)
+                out[k] = _merge(cond, a, b)
+        fr.env.clear()
+        fr.env.update(out)
 
     def _try(self, st: ast.Try, fr: Frame):
         """Value returned from inside the try statement (None when it completes normally)."""
@@ -613,10 +652,34 @@ class AV:
         for k in assigned:
             if k in fr.env:
                 inner_env[k] = ("acc", d, k)
+        known = it
+        if known[0] == "c" and isinstance(known[1], tuple):
+            known = ("list", tuple(C(x) for x in known[1]))
+        if known[0] == "list" and not any(i[0] in ("spread", "when") for i in known[1]) and len(known[1]) <= 16 and any(isinstance(n, (ast.Break, ast.Return)) for s_ in st.body for n in ast.walk(s_)):
+            # a loop over a known sequence that can leave early is executed element by element
+            broke = False
+            for k, elem in enumerate(known[1]):
+                self._bind(st.target, elem if idx is None else ("list", (C((idx[2][1] if idx[2][0] == "c" else 0) + k), elem)), fr)
+                r = self._run(list(st.body), fr, ())
+                if r is _BREAK:
+                    broke = True
+                    break
+                if r is _FALL or r is _CONT:
+                    continue
+                if r is _MIXED:
+                    for k_ in assigned:
+                        fr.env[k_] = unk("loop left under a condition that is not decided")
+                    return None
+                return r
+            if not broke and st.orelse:
+                r = self._run(list(st.orelse), fr, ())
+                if r is not _FALL:
+                    return r
+            return None
         inner = Frame(fr.func, fr.rel, inner_env, fr.depth, d)
         self._bind_loop_target(st.target, it, idx, d, inner)
         r = self._run(list(st.body), inner, ())
-        jumps = "<jump>" in inner.env or r is not _FALL or any(isinstance(n, (ast.Break, ast.Return)) for s_ in st.body for n in ast.walk(s_)) or bool(st.orelse)
+        jumps = "<jump>" in inner.env or not (r is _FALL or r is _CONT) or any(isinstance(n, (ast.Break, ast.Return)) for s_ in st.body for n in ast.walk(s_)) or bool(st.orelse)
         tnames = set(_target_names(st.target))
         # carried element-independent values: pre-loop value in the first iteration, the new value afterwards
         carried = {}
@@ -735,6 +798,7 @@ class AV:
                     fr.env[base.id] = ("call", "setitem", (cur, key, v), ())
             return
         if isinstance(target, ast.Attribute):
+            self.attr_stores.append((fr.func, self._ev(target.value, fr), target.attr, v, target))
             d_ = dotted(target)
             if d_:
                 fr.env[d_] = v
@@ -1115,7 +1179,7 @@ class AV:
                         return C(getattr(recv[1], m)(*[a[1] for a in args]))
                     except Exception:
                         return unk("string method on constant failed")
-                return ("mcall", recv, m, tuple(args), ())
+                return ("mcall", recv, m, tuple(args), tuple(sorted(kwargs)))
         return None
 
     def _reduce(self, args, fr: Frame):
@@ -1292,7 +1356,7 @@ class AV:
         return self._finish(r, sub)
 
     def _finish(self, r, sub: Frame):
-        return NONE if (r is _FALL or r is None) else r
+        return NONE if (r is None or any(r is x for x in (_FALL, _CONT, _BREAK))) else (unk("exit not understood") if r is _MIXED else r)
 
     def returned(self, f: Func, args: dict | None = None):
         """Value of the function (early exits merged as conditionals)."""
@@ -1326,11 +1390,14 @@ class _Closure:
 
 
 _FALL = ("fall",)
+_BREAK = ("break",)
+_CONT = ("continue",)
+_MIXED = ("mixed-exit",)
 
 
 def _has_exit(st) -> bool:
     for n in walk_no_nested(st):
-        if isinstance(n, (ast.Return, ast.Raise)):
+        if isinstance(n, (ast.Return, ast.Raise, ast.Break, ast.Continue)):
             return True
     return False
 
